@@ -523,6 +523,21 @@ func runC11(c *Ctx) {
 		}
 		c.Ob("C11-R6", "putint has the eight widths", c.FnPos(pi), len(seenN) == 8, fmt.Sprintf("%d", len(seenN)))
 
+		// a string header is written only for content that is not a single byte below 0x80 (such a byte is its own
+		// encoding; the decoder rejects 81 xx with xx < 0x80): every call of the header writer is guarded by that rule
+		hw := c.Fn("rlp:(*encbuf).encodeStringHeader")
+		nh := 0
+		for _, fn := range c.SrcFns {
+			if fn.Pkg == nil || fn.Pkg != hw.Pkg || len(callSitesOf(fn, hw)) == 0 {
+				continue
+			}
+			nh++
+			c.MustBefore("C11-R6", fn, `^encbuf\.encodeStringHeader$`, 1, []LitReq{
+				{Name: "a string header is written only if the content is not one byte below 0x80", Re: `^(len\(.*\) != 1|.*\[0\] > 127|.*\[0\] >= 128)$`},
+			})
+		}
+		c.Ob("C11-R6", "callers of the string-header writer found", "", nh >= 2, fmt.Sprintf("%d", nh))
+
 		// intsize: counts the shifts by 8 until the value is zero, starting at 1
 		is := c.Fn("rlp:intsize")
 		fi := c.Facts(is)
